@@ -87,7 +87,7 @@ def exitOrder (t : RT) : List Layer := (trace t).filterMap (fun e => match e wit
 /-! ## the generated init() -/
 
 /-- int64 wrap-around of Go's `*` on time.Duration -/
-def wrap64 (x : Int) : Int := Int.bmod x (2 ^ 64)
+def wrap64 (x : Int) : Int := Int.bmod x 18446744073709551616   -- 2^64
 
 def second : Int := 1000000000
 
